@@ -183,6 +183,10 @@ let dispatch (f : Stdlib.String.t list) : Stdlib.String.t =
   | ["b64.dec"; i] -> (match b64dec (unhex i) with Some o -> "ok\t" ^ hex o | None -> "err")
   | ["utf8.valid"; i] -> b01 (utf8_valid (unhex i))
   | ["split_ws"; i] -> hexlist (split_ws (unhex i))
+  | ["mv.parse"; b] ->
+    (match mime_version_parse (unhex b) with Some (x, y) -> Printf.sprintf "some\t%d\t%d\t%s" (int_of_n x) (int_of_n y) (hex (mime_version_display x y)) | None -> "none")
+  | ["cte.parse"; b] ->
+    (match cte_parse (unhex b) with Some e -> "some\t" ^ hex (cte_display e) | None -> "none")
   | ["date.display"; secs] ->
     (match of_secs (z_of_string secs) with Some d -> "some\t" ^ hex (date_display d) | None -> "PANIC")
   | ["date.parse"; b] ->
